@@ -90,10 +90,34 @@ func loadFmt(g *lookup) {
 	g.Set("fmt.Sprintf", NewFunc(2, 1, func(v *VM, args []Value, vargs ...Value) []Value {
 		var va []any
 		for _, v := range vargs {
-			va = append(va, v)
+			va = append(va, sprintfOperand(v))
 		}
 		return []Value{String(fmt.Sprintf(args[0].String(), va...))}
 	}))
+}
+
+// sprintfOperand hands scalars to fmt as Go values so that verbs such as %d, %x, %5.2f and %t apply to them;
+// containers and structs keep their own rendering.
+func sprintfOperand(v Value) any {
+	switch v.t {
+	case TypeInt32:
+		return int32(v.num)
+	case TypeUint32:
+		return uint32(v.num)
+	case TypeInt8:
+		return int8(v.num)
+	case TypeUint8:
+		return uint8(v.num)
+	case untypedInt:
+		return int(v.num)
+	case TypeFloat64:
+		return v.num
+	case TypeBool:
+		return v.num != 0
+	case TypeString:
+		return string(v.value.(stringT))
+	}
+	return v
 }
 
 func loadErrors(g *lookup) {
